@@ -195,6 +195,9 @@ func (x *Enc) encodeTop() {
 			x.sc.assertC(x.evalBool(env, clauseExpr(ci)), "given (ghost hypothesis) "+c.Text)
 		}
 	}
+	if x.con != nil && len(x.con.HavocPreserves) > 0 {
+		x.assumed[shortFn(fn)+": uncontracted callees do not write fields of "+strings.Join(x.con.HavocPreserves, ", ")] = true
+	}
 	if x.con != nil {
 		for _, cs := range x.con.Counts {
 			k := "$cnt:" + cs[0]
